@@ -176,6 +176,9 @@ func shapeKey(c *Case, ex expect, outcome string) string {
 			shape += "+interfering-request"
 		}
 	}
+	if c.Conc > 1 {
+		shape += "+concurrent"
+	}
 	return fmt.Sprintf("%s/%s/%s/%s/msgs=%d/%s/%s/%s/%s", c.Lane, c.T, c.codecName(), shape, n, c.Sched, style, ex.class, outcome)
 }
 
@@ -320,9 +323,11 @@ func RunC06(r *mon.Run) {
 	g.laneResponses()
 	g.laneInterleave()
 	g.laneReal()
+	g.laneConcurrent()
 
 	r.Set("exhaustive_partition_bound_bytes", r.Pick(8, 12))
 	r.Set("exhaustive_truncation_bound_bytes", r.Pick(24, 64))
+	r.Assume("the concurrent lane explores the interleavings the Go scheduler produces for 8 simultaneous streams; they are not enumerated")
 	r.Assume("the recording handler behaves like generated gRPC code: it calls RecvMsg until the first error and returns that error unless it is a clean end of stream")
 	r.Assume("a zero-byte HTTP request body may be presented to the handler either as no message or as one message built from the URL alone")
 	r.Assume("on WebSocket io.EOF and a close frame with code 1000/1001/1005 both count as a clean end of stream")
@@ -726,6 +731,13 @@ func Replay(r *mon.Run, raw json.RawMessage) {
 	g := &gen{r: r, e: e, rng: r.Rand("stream"), withheldSeen: map[string]bool{}}
 	var vs []viol
 	var outcome string
+	if c.Conc > 1 {
+		defer closeClients()
+		for i := 0; i < 20 && r.Violations() == 0; i++ {
+			g.runGroup(&c) // scheduling dependent: a few attempts
+		}
+		return
+	}
 	if c.Lane == "inproc" || c.Lane == "" {
 		vs, outcome = e.execInproc(&c)
 	} else {
